@@ -12,14 +12,14 @@ MUTANTS = [
     {"name": "revert-10a47c7-nan-bounds", "revert": "10a47c7", "props": ["C02", "C01"]},
     {"name": "revert-fb0dac0-and-raw-exc", "revert": "fb0dac0", "props": ["C04"]},
     {"name": "revert-aa785cb-lax-bound-type", "props": ["C01"], "edits": [{"file": R, "old": "            return type(value)(bound)\n        return bound", "new": "            return bound\n        return bound"}]},
-    {"name": "revert-b8f56f5-registry-stale-cache", "props": ["C16"], "edits": [{"file": "utype/utils/base.py", "old": "            self._cache.clear()\n", "new": ""}]},
-    {"name": "revert-28f56ca-registry-priority0-order", "revert": "28f56ca", "props": ["C16"]},
+    {"name": "revert-b8f56f5-registry-stale-cache", "props": ["C16"], "edits": [{"file": "utype/utils/base.py", "old": "                self._cache = {}\n            return f", "new": "            return f"}]},
+    {"name": "revert-28f56ca-registry-priority0-order", "props": ["C16"], "edits": [{"file": "utype/utils/base.py", "old": "                self._registry = sorted([(detector, f, priority), *self._registry], key=lambda v: -v[2])", "new": "                self._registry = [(detector, f, priority), *self._registry]\n                if priority:\n                    self._registry = sorted(self._registry, key=lambda v: -v[2])"}]},
     {"name": "revert-b9950c3-xor-threads-value", "revert": "b9950c3", "props": ["C09"]},
-    {"name": "revert-b467353-enum-unhashable", "revert": "b467353", "props": ["C12"]},
+    {"name": "revert-b467353-enum-unhashable", "props": ["C12"], "edits": [{"file": T, "old": "            except TypeError:\n                # unhashable data (list / set / bytearray) is not a member name\n                pass", "new": "            except ZeroDivisionError:\n                pass"}]},
     {"name": "revert-981e4a4-depth-falsy-route", "revert": "981e4a4", "props": ["C18"]},
     {"name": "revert-4a77e64-fieldfirst-case-variants", "props": ["C06"], "edits": [{"file": "utype/parser/base.py", "old": "                        if not context.options.ignore_alias_conflicts:\n                            # two case variants of one name with different values: a conflict,", "new": "                        if False:\n                            # two case variants of one name with different values: a conflict,"}]},
     {"name": "revert-f57c67c-ignore_required-defaults", "revert": "f57c67c", "props": ["C06"]},
-    {"name": "c06-datafirst-compares-parsed-with-raw", "props": ["C06"], "edits": [{"file": "utype/parser/base.py", "old": "                    if provided[name] != value:", "new": "                    if result.get(name, value) != value:"}]},
+    {"name": "c06-datafirst-compares-parsed-with-raw", "props": ["C06"], "edits": [{"file": "utype/parser/base.py", "old": "                    if _differ(provided[name], value):", "new": "                    if _differ(result.get(name, value), value):"}]},
     {"name": "revert-3f17af4-datafirst-spurious-absence", "props": ["C10"], "edits": [{"file": "utype/parser/base.py", "old": "            if name in result or name in attempted:", "new": "            if name in result:"}]},
     {"name": "c10-handle_error-drops-absence-when-collecting", "props": ["C10"], "edits": [{"file": "utype/parser/options.py", "old": "        self.errors.append(e)\n        if force_raise or self.force_error or not self.options.collect_errors:", "new": "        if not (self.options.collect_errors and type(e).__name__ == 'AbsenceError' and self.errors):\n            self.errors.append(e)\n        if force_raise or self.force_error or not self.options.collect_errors:"}]},
     {"name": "c11-seq-preserve-appends-converted-prefix-only", "props": ["C11"], "edits": [{"file": "utype/parser/rule.py", "old": """                    if options.invalid_items == options.PRESERVE:
@@ -45,7 +45,7 @@ MUTANTS = [
     {"name": "revert-64743ac-popitem", "revert": "64743ac", "props": ["C07"]},
     {"name": "revert-139f76d-copy-shares-dict", "revert": "139f76d", "props": ["C07"]},
     {"name": "revert-b237226-stale-attribute", "revert": "b237226", "props": ["C07"]},
-    {"name": "c07-setter-skips-parse-for-no_output", "props": ["C07"], "edits": [{"file": "utype/schema.py", "old": "        context = self.__parser__.make_context(force_error=True)\n        value = field.parse_value(value, context=context)\n\n        if field.property:", "new": "        context = self.__parser__.make_context(force_error=True)\n        if field.no_output is not True:\n            value = field.parse_value(value, context=context)\n\n        if field.property:"}]},
+    {"name": "c07-setter-skips-parse-for-no_output", "props": ["C07"], "edits": [{"file": "utype/schema.py", "old": "        context = self.__parser__.make_context(force_error=True)\n        value = field.parse_value(value, context=context)\n        if unprovided(value):", "new": "        context = self.__parser__.make_context(force_error=True)\n        if field.no_output is not True:\n            value = field.parse_value(value, context=context)\n        if unprovided(value):"}]},
     {"name": "c19-get_default-without-copy", "props": ["C19"], "edits": [{"file": "utype/parser/field.py", "old": "        return copy_value(default)", "new": "        return default"}]},
     {"name": "revert-e33b772-negative-utc-offset", "revert": "e33b772", "props": ["C14"]},
     {"name": "revert-0430ca0-generator-mode-argument", "revert": "0430ca0", "props": ["C13"]},
@@ -58,24 +58,24 @@ MUTANTS = [
     {"name": "revert-4907b11-async-generator-asend", "revert": "4907b11", "props": ["C08"]},
     {"name": "revert-b8c7212-private-positional-default", "revert": "b8c7212", "props": ["C08"]},
     {"name": "revert-7930fa6-forward-ref-key-collision", "revert": "7930fa6", "props": ["C17"]},
-    {"name": "revert-35946e1-forward-ref-lock", "revert": "35946e1", "props": ["C20"]},
-    {"name": "revert-0686b8d-registry-cache-check-then-read", "revert": "0686b8d", "props": ["C20"]},
-    {"name": "c20-lock-released-before-fields-resolved", "props": ["C20"], "edits": [{"file": "utype/parser/base.py", "old": "        with self._forward_lock:\n            if not self.forward_refs:\n                return False\n            return self._resolve_forward_refs(local_vars=local_vars, ignore_errors=ignore_errors)", "new": "        with self._forward_lock:\n            if not self.forward_refs:\n                return False\n        return self._resolve_forward_refs(local_vars=local_vars, ignore_errors=ignore_errors)"}]},
+    {"name": "revert-35946e1-forward-ref-lock", "props": ["C20"], "edits": [{"file": "utype/parser/base.py", "old": "        with self._forward_lock:\n            if not self.forward_refs:\n                return False\n            self._forward_resolving = True", "new": "        if True:\n            if not self.forward_refs:\n                return False\n            self._forward_resolving = False"}]},
+    {"name": "revert-0686b8d-registry-cache-check-then-read", "props": ["C20"], "edits": [{"file": "utype/utils/base.py", "old": "        cache = self._cache\n        if self.cache:\n            cached = cache.get(t)\n            if cached is not None:\n                return cached", "new": "        cache = self._cache\n        if self.cache and t in self._cache:\n            return self._cache[t]"}, {"file": "utype/utils/base.py", "old": "                self._cache = {}\n            return f", "new": "                self._cache.clear()\n            return f"}]},
+    {"name": "c20-lock-released-before-fields-resolved", "props": ["C20"], "edits": [{"file": "utype/parser/base.py", "old": "        if not self.forward_refs and not self._forward_resolving:\n            return False", "new": "        if not self.forward_refs:\n            return False"}]},
     {"name": "revert-a0fd8f0-lax-fractional-bound-int", "revert": "a0fd8f0", "props": ["C03"]},
-    {"name": "revert-26d5b4e-abstract-container-elements", "revert": "26d5b4e", "props": ["C01"]},
+    {"name": "revert-26d5b4e-abstract-container-elements", "props": ["C01"], "edits": [{"file": R, "old": "        elif cls.__abstract__ and issubclass(cls.__origin__, Iterable):", "new": "        elif False:"}]},
     {"name": "revert-a63d0d7-strict-recheck-after-lax", "props": ["C01", "C03"], "edits": [{"file": R, "old": "                if result is not value:\n                    # the constraint transformed the value", "new": "                if False:\n                    # the constraint transformed the value"}]},
     {"name": "revert-55b7cc4-shared-typing-forwardref", "revert": "55b7cc4", "props": ["C17", "C19"]},
-    {"name": "revert-6f3d216-not-taken-values", "revert": "6f3d216", "props": ["C06"]},
+    {"name": "revert-6f3d216-not-taken-values", "props": ["C06"], "edits": [{"file": "utype/parser/base.py", "old": "                elif field.is_required(options=options):\n                    # a required field whose given value is not taken as input is absent", "new": "                elif False:\n                    # a required field whose given value is not taken as input is absent"}]},
     {"name": "revert-6a12ebb-lax-max_digits-carry", "revert": "6a12ebb", "props": ["C03"]},
     {"name": "revert-2b13b3c-lax-multiple_of-float-drift", "props": ["C03"], "edits": [{"file": R, "old": "            if isinstance(value, float):\n                # binary floats drift", "new": "            if False:\n                # binary floats drift"}]},
     {"name": "revert-2c2374b-safe-repr-of-items", "revert": "2c2374b", "props": ["C04"]},
     {"name": "revert-41cd943-unhashable-discriminator", "revert": "41cd943", "props": ["C04"]},
-    {"name": "revert-271e688-recheck-after-decimal_places", "revert": "271e688", "props": ["C01"]},
+    {"name": "revert-271e688-recheck-after-decimal_places", "props": ["C01"], "edits": [{"file": R, "old": "                if result is not value:\n                    # the constraint transformed the value", "new": "                if result is not value and getattr(validator, '__name__', key) != key:\n                    # the constraint transformed the value"}]},
     {"name": "revert-35e1088-int-lax-fractional-step", "props": ["C01"], "edits": [{"file": R, "old": "            if isinstance(value, int) and not isinstance(of, int):\n                # a fractional step on an int rule: the result has to stay an integer", "new": "            if False:\n                # a fractional step on an int rule: the result has to stay an integer"}]},
     {"name": "revert-b64ef33-local-class-optional-late-name", "revert": "b64ef33", "props": ["C17"]},
     {"name": "revert-0c527f8-subclass-before-base", "revert": "0c527f8", "props": ["C17"]},
-    {"name": "revert-3172241-generator-whole-string-annotation", "revert": "3172241", "props": ["C17"]},
-    {"name": "revert-47d4c1c-exact-int-modulo", "revert": "47d4c1c", "props": ["C01"]},
+    {"name": "revert-3172241-generator-whole-string-annotation", "props": ["C17"], "edits": [{"file": "utype/parser/func.py", "old": "            if late and r:", "new": "            if False:"}]},
+    {"name": "revert-47d4c1c-exact-int-modulo", "props": ["C01"], "edits": [{"file": R, "old": "        if isinstance(value, (int, Decimal)) and not isinstance(value, bool):\n            # exact arithmetic for exact values", "new": "        if isinstance(value, Decimal):\n            # exact arithmetic for exact values"}]},
     {"name": "revert-44ce292-hunt", "revert": "44ce292", "props": ["C02"]},
     {"name": "revert-155275b-hunt", "revert": "155275b", "props": ["C17", "C10"]},
     {"name": "revert-54fefb3-hunt", "revert": "54fefb3", "props": ["C06", "C05"]},
@@ -109,11 +109,15 @@ MUTANTS = [
                             item, arg_type, func=arg_transformer
                         ) if i or len(value) < 3 else item
                     )"""}]},
-    {"name": "c01-to_str-passes-bytearray", "props": ["C01"], "edits": [{"file": T, "old": """        if isinstance(data, str):
-            return t(data)
-        data = self._from_byte_like(self._attempt_from(data))""", "new": """        if isinstance(data, (str, bytearray)):
-            return data if isinstance(data, bytearray) else t(data)
-        data = self._from_byte_like(self._attempt_from(data))"""}]},
+    {"name": "c01-to_str-passes-bytearray", "props": ["C01"], "edits": [{"file": T, "old": """        data = self._from_byte_like(self._attempt_from(data))
+        if self.no_explicit_cast and not isinstance(data, str):
+            raise TypeError
+        return t(data)""", "new": """        if isinstance(data, bytearray):
+            return data
+        data = self._from_byte_like(self._attempt_from(data))
+        if self.no_explicit_cast and not isinstance(data, str):
+            raise TypeError
+        return t(data)"""}]},
     {"name": "c01-no-rewrap-into-origin", "props": ["C01"], "edits": [{"file": R, "old": """            if not cls.__abstract__ and type(value) != cls.__origin__:""", "new": """            if not cls.__abstract__ and type(value) != cls.__origin__ and not isinstance(value, list):"""}]},
     # ---- C02 ------------------------------------------------------------------------------
     {"name": "c02-ge-strict", "props": ["C02"], "edits": [{"file": R, "old": "        if not value >= ge:", "new": "        if not value > ge:"}]},
@@ -128,7 +132,7 @@ MUTANTS = [
 
     @classmethod
     def lax_max_length"""}]},
-    {"name": "c02-regex-match-not-fullmatch", "props": ["C02"], "edits": [{"file": R, "old": "        if not re.fullmatch(r, str(value)):", "new": "        if not re.match(r, str(value)):"}]},
+    {"name": "c02-regex-match-not-fullmatch", "props": ["C02"], "edits": [{"file": R, "old": "        if not re.fullmatch(r, text):", "new": "        if not re.match(r, text):"}]},
     {"name": "c02-const-drops-type-check", "props": ["C02"], "edits": [{"file": R, "old": "        if type(value) != type(v):\n            if {type(value), type(v)} in TYPE_EXACT_TOLERANCE:", "new": "        if type(value) != type(v) and not isinstance(value, (int, float)):\n            if {type(value), type(v)} in TYPE_EXACT_TOLERANCE:"}]},
     {"name": "c02-digits-count-leading-zero", "props": ["C02"], "edits": [{"file": R, "old": """            if abs(exponent) > len(digit_tuple):
                 digits = abs(exponent)""", "new": """            if abs(exponent) >= len(digit_tuple):
